@@ -217,6 +217,36 @@ theorem C13_withdraw_reincludable (s : State) (b : Block) (hv : ValidOn s b) (tx
       | panic => simp [hun, Res.bind] at hc
   · rw [he.tx3]; exact hv.tx3_fresh tx htx h hsaved
 
+/-! ### the stored form of an unspent list -/
+
+/-- **C13 (codec).** Every list of output indexes (uint16) reads back from its stored bytes unchanged —
+    in particular indexes ≥ 256, whose high byte is not zero. -/
+theorem C13_u16_roundtrip (l : List Nat) (h : ∀ x ∈ l, x < 65536) : u16dec (u16enc l) = some l := by
+  induction l with
+  | nil => rfl
+  | cons x r ih =>
+    have hx := h x (List.mem_cons_self ..)
+    have := ih (fun y hy => h y (List.mem_cons_of_mem _ hy))
+    simp only [u16enc, u16dec, this, Option.map_some]
+    congr 2
+    omega
+
+/-- stored bytes are bytes, two per index -/
+theorem C13_u16enc_bytes (l : List Nat) : (u16enc l).length = 2 * l.length ∧ ∀ b ∈ u16enc l, b < 256 := by
+  induction l with
+  | nil => simp [u16enc]
+  | cons x r ih =>
+    refine ⟨by simp [u16enc, ih.1]; omega, ?_⟩
+    intro b hb
+    simp only [u16enc, List.mem_cons] at hb
+    rcases hb with rfl | rfl | hb
+    · omega
+    · omega
+    · exact ih.2 b hb
+
+example : u16dec (u16enc [5, 261, 299, 65535]) = some [5, 261, 299, 65535] := by decide
+example : u16dec [1, 2, 3] = none := by decide
+
 /-! ### non-vacuity: a concrete state and a concrete valid block -/
 
 /-- state after a genesis-like block: tx 1 (height 0) with outputs to addresses 7 and 8 -/
